@@ -3,6 +3,7 @@
    worker prologue), regenerated on every run; the fork_exec system call itself is an oracle. *)
 From Coq Require Import List String ZArith Bool.
 From LokyV Require Import Lib.PyLib Lib.PosixLib Gen.Spawn Proofs.SpawnThm.
+From LokyV Require Lib.InitLib Gen.Init Proofs.InitThm.
 Import ListNotations.
 Open Scope Z_scope.
 
@@ -43,3 +44,19 @@ Example C18_example :
   gen_child_fds [0; 1; 2; 3; 4; 7; 9; 200] (gen_keep_list 7 9 4 200 []) = [0; 1; 2; 4; 7; 9; 200]
   /\ dget (gen_child_env [("A"%string, "1"%string); ("B"%string, "2"%string)] [("B"%string, ""%string); ("C"%string, "3"%string)]) "B"%string = Some ""%string.
 Proof. vm_compute. split; reflexivity. Qed.
+
+(* ---- what a worker runs before its first task (loky/initializers.py, Gen/Init.v) ----
+   the executor stores the pair built by _prepare_initializer: the user's initializer first, then loky's own (profiler propagation),
+   combined by _chain_initializers; the worker calls it as initializer( *initargs ) before its loop.  For EVERY list of (initializer or
+   None, argument tuple): the calls made in the worker are exactly the initializers that are not None, each once, in the order given,
+   each with its own arguments -- never one's arguments for another, never a None called. *)
+Theorem C18_prepared_initializer_runs_each_once_in_order :
+  forall (I A : Type) (l : list (option I * A)),
+    InitLib.calls Init.chained_call (InitLib.chain Init.chain_shape l) = Some (InitLib.wanted l).
+Proof. exact InitThm.prepared_initializer_runs_each_once_in_order. Qed.
+Print Assumptions C18_prepared_initializer_runs_each_once_in_order.
+Theorem C18_initializer_structure :
+  Init.prepare_puts_the_users_initializer_first_then_lokys_own = true /\ Init.executor_stores_the_prepared_pair = true
+  /\ Init.worker_calls_initializer_with_initargs_before_its_loop = true.
+Proof. repeat split; reflexivity. Qed.
+Print Assumptions C18_initializer_structure.
